@@ -118,7 +118,7 @@ class ReusableParts:
     )
 
     def normalize(self, path: str) -> NormalizedShape:
-        if self.reuse_tolerance != -1:
+        if self.reuse_tolerance >= 0:
             # normalize handles it's own rounding
             # apply a nop transform because some things still change, like arcs to cubics
             norm = NormalizedShape(
@@ -196,7 +196,7 @@ class ReusableParts:
 
     def compute_donors(self):
         self._donor_cache.clear()
-        if self.reuse_tolerance == -1:
+        if self.reuse_tolerance < 0:
             # reuse is disabled, try_reuse never consults a donor
             return
         for norm in self.shape_sets:
@@ -216,7 +216,7 @@ class ReusableParts:
     def try_reuse(self, shape: SVGPath) -> Optional[ReuseResult]:
         """Returns the shape and transform to use to build the input shape."""
         shape = as_shape(shape)
-        if self.reuse_tolerance == -1:
+        if self.reuse_tolerance < 0:
             return ReuseResult(Affine2D.identity(), shape)
 
         norm = self.normalize(shape)
